@@ -293,14 +293,16 @@ Proof.
     destruct (nth_error (loops s) i) as [lp|] eqn:Hl; simpl.
     + destruct (lpc lp) as [|found|f cont| |] eqn:Hp; simpl; inversion Hs; subst; clear Hs; simpl;
         try (eexists; split; [reflexivity|exact R]).
-      * eexists; split; [reflexivity|].
-        rewrite <- (sim_hunt _ _ _ R). unfold hunted. rewrite <- hunt_find_is_some.
-        apply (sim_set_pc c s sp i lp (PLooked (hunt_find (amac (laddr lp)) (hunt s))) R Hl).
-        unfold pc_wf. simpl. destruct (hunt_find _ _) eqn:Hf; auto. apply hunt_find_some in Hf. tauto.
-      * eexists; split; [reflexivity|].
-        rewrite <- (sim_hunt _ _ _ R). unfold hunted. rewrite <- hunt_find_is_some.
-        apply (sim_set_pc c s sp i lp (PLooked (hunt_find (amac (laddr lp)) (hunt s))) R Hl).
-        unfold pc_wf. simpl. destruct (hunt_find _ _) eqn:Hf; auto. apply hunt_find_some in Hf. tauto.
+      * rewrite <- (sim_closed _ _ _ R). destruct (closed s) eqn:Hcl; (eexists; split; [reflexivity|]).
+        -- apply (sim_set_pc c s sp i lp PDone R Hl). exact I.
+        -- rewrite <- (sim_hunt _ _ _ R). unfold hunted. rewrite <- hunt_find_is_some.
+           apply (sim_set_pc c s sp i lp (PLooked (hunt_find (amac (laddr lp)) (hunt s))) R Hl).
+           unfold pc_wf. simpl. destruct (hunt_find _ _) eqn:Hf; auto. apply hunt_find_some in Hf. tauto.
+      * rewrite <- (sim_closed _ _ _ R). destruct (closed s) eqn:Hcl; (eexists; split; [reflexivity|]).
+        -- apply (sim_set_pc c s sp i lp PDone R Hl). exact I.
+        -- rewrite <- (sim_hunt _ _ _ R). unfold hunted. rewrite <- hunt_find_is_some.
+           apply (sim_set_pc c s sp i lp (PLooked (hunt_find (amac (laddr lp)) (hunt s))) R Hl).
+           unfold pc_wf. simpl. destruct (hunt_find _ _) eqn:Hf; auto. apply hunt_find_some in Hf. tauto.
     + inversion Hs; subst. eexists; split; [reflexivity|exact R].
   - (* Check *)
     simpl in Hs. unfold check in Hs. unfold sp_step. rewrite <- (sim_loops _ _ _ R), nth_view.
@@ -308,11 +310,8 @@ Proof.
     + destruct (lpc lp) as [|found|f cont| |] eqn:Hp; simpl; inversion Hs; subst; clear Hs; simpl;
         try (eexists; split; [reflexivity|exact R]).
       pose proof (sim_wf _ _ _ R i lp Hl) as Hwf. unfold pc_wf in Hwf. rewrite Hp in Hwf.
-      rewrite <- (sim_closed _ _ _ R).
-      destruct found as [t|]; destruct (closed s) eqn:Hcl; (eexists; split; [reflexivity|]).
-      * apply (sim_set_pc c s sp i lp PDone R Hl). exact I.
+      destruct found as [t|]; (eexists; split; [reflexivity|]).
       * apply (sim_set_pc c s sp i lp (PSend (announce c (amac t)) true) R Hl). unfold pc_wf. simpl. rewrite Hwf. reflexivity.
-      * apply (sim_set_pc c s sp i lp PDone R Hl). exact I.
       * apply (sim_set_pc c s sp i lp (PSend (restore c (amac (laddr lp))) false) R Hl). reflexivity.
     + inversion Hs; subst. eexists; split; [reflexivity|exact R].
   - (* Send *)
